@@ -259,6 +259,25 @@ TRUSTED_BASE = [
     "stored nowhere is rebinding (the model's dictUpdate); logger calls are skipped; the theorems speak about envs Guard builds (EnvOk) and caveat contexts "
     "that are not non-empty lists / strs (CtxOk); the memo is threaded through condition trees / rule lists / decisions by the hand-written evalCondM … "
     "guardDecideM only (the translated branch is tied node by node)",
+    "for the translated SINK BLOCK of Guard._evaluate_core_async (C11: `if self.metrics is not None:` … `return d`; harness/pytolean_sinks.py, plugin "
+    "extractors/src_translation_sinks.py, meanings in Model/PySinks.lean, obligation Run/C11_sinks_translated.lean, validated against the same "
+    "statements run by CPython with recording sinks of every kind on every run by Run/SrcEvalSinks.lean): SINKS AS PARAMETERS — what "
+    "getattr(<sink object>, name, None) finds is absent / a plain function / a coroutine function whose body returns or raises an Exception "
+    "(Rbacx.PyS.Sink); the block is a function to the list of sink calls whose body ran (label = the attribute path, not the local's name; "
+    "ran as a coroutine?; positional arguments) and its ending (returned v / raised / next); `x(args)` / `await x(args)` runs the body exactly "
+    "when the way of calling fits what the sink is (a coroutine function called without await never runs, a plain function awaited runs and "
+    "then raises TypeError, None called raises); try … except Exception is tryExcept (what is raised is an Exception: BaseException / "
+    "cancellation is not represented); the pure expressions of the block (dict displays, record fields, is-None tests) do not raise; "
+    "max(0.0, _now() - start) is an OPAQUE value (not looked into; evaluated by CPython in the comparison); NOT represented: a getattr whose "
+    "look-up itself raises, a plain function that RETURNS an awaitable (the engine never awaits it: the call is made, its deferred work is lost), "
+    "what a sink does to the payload object it is handed; "
+    "for the ASSEMBLY obligation Run/C14_core_assembly.lean (C14, C11): harness/pytolean_sinks.assembly is a purely syntactic reading — which "
+    "designated statement range covers each top-level statement of _evaluate_core_async (prefix designators; engine_env / engine_gate are the "
+    "engine plugin's), where `return` and reads of self.metrics / self.logger_sink occur in class Guard, where the sink block's inputs are "
+    "assigned, and each API method's body as a term of Rbacx.PyAsm.Api (Model/PyAssembly.lean) — with the readings that `await e`, "
+    "asyncio.run(e) and ThreadPoolExecutor.submit(f).result() hand on the value or the exception of what they run, that statements containing "
+    "no call of the core / an API method and no return / raise (the running-loop probe) do not affect what is handed back, and that the core "
+    "is a FUNCTION of the four request objects (calling context, event loop and thread are not arguments: observed by C14's flavour runs)",
 ]
 
 
